@@ -59,6 +59,7 @@ def mc_cfg_text(m):
              "  MaxCap = %d" % m.get("MaxCap", 1000000000),
              "  MaxLazyDepth = %d" % m.get("MaxLazyDepth", 1),
              "  MaxLazyN = %d" % m.get("MaxLazyN", 1),
+             "  PushManyN = %d" % m.get("PushManyN", 0),
              "  OneHandle = %s" % ("TRUE" if m.get("OneHandle", False) else "FALSE"),
              "  MaxOut = %d" % m.get("MaxOut", 0),
              "  MaxRepl = %d" % m.get("MaxRepl", 0),
@@ -92,6 +93,11 @@ def gen_cases(name, model, force=False):
     if stats["rc"] != 0 or stats["errors"]:
         log = open(os.path.join(wd, "tlc.log")).read()[-3000:]
         raise ToolError("TLC exploration of model %s failed (rc=%s): %s\n%s" % (name, stats["rc"], stats["errors"][:3], log))
+    for old in glob.glob(os.path.join(GEN, "%s-*.cases" % name)):
+        if old != cases:
+            for f in (old, old + ".stats.json"):
+                try: os.remove(f)
+                except FileNotFoundError: pass
     os.replace(cases + ".tmp", cases)
     stats["model"] = name
     json.dump(stats, open(statf, "w"))
